@@ -344,6 +344,43 @@ theorem acrossTicks_accumulates (next : TTerm) (fuel : Nat) (init : Val) (f : Va
     have h1 : List.take (xs.length + 1) (xs ++ [now]) = xs ++ [now] := List.take_of_length_le (by simp)
     simp [h1]
 
+/-! ### lazily deferred data does not schedule a tick
+
+`Dfir::run_available_sync` (dfir_rs/src/scheduled/context.rs): clear `can_start_tick`, run a tick, repeat
+while the flag was set again.  The generated tick closure sets it at the end of a tick
+(`if false || !buf.is_empty() … { df.schedule_subgraph(true) }`, dfir_lang meta_graph.rs) for the tick-boundary
+handoffs that are NOT lazy; `hydro_lang` lowers `DeferTick` (hence `defer_tick` and tick cycles) to
+`defer_tick_lazy()` only (`lowering_table_matches`), so none of its handoffs takes part. -/
+
+/-- a tick-boundary handoff after a tick: is it lazy (`DelayType::TickLazy`), and how many items wait in it -/
+structure Hoff where
+  isLazy : Bool
+  pending : Nat
+
+/-- the end-of-tick test of the generated tick closure: `false || !buf₁.is_empty() || …` over the non-lazy handoffs -/
+def schedulesNextTick (hs : List Hoff) : Bool := hs.any (fun h => !h.isLazy && decide (0 < h.pending))
+
+/-- `run_available_sync` with input streams that never wake the runtime: `ticks k` is the state of the
+    tick-boundary handoffs after the `k`-th tick of this call; the number of ticks run (bounded by `fuel`) -/
+def runAvailableTicks (ticks : Nat → List Hoff) : Nat → Nat → Nat
+  | 0, _ => 0
+  | fuel + 1, k => 1 + (if schedulesNextTick (ticks k) then runAvailableTicks ticks fuel (k + 1) else 0)
+
+/-- however much data is parked in lazily deferred handoffs, `run_available_sync` runs exactly one tick: the
+    deferred values wait for the next tick that something else (new input) starts, and are delivered there
+    (`deferTick_one_tick_later`, `tickCycle_one_tick_later` count ticks that run) -/
+theorem lazyDefer_does_not_schedule_tick (ticks : Nat → List Hoff) (hlazy : ∀ k, ∀ h ∈ ticks k, h.isLazy = true)
+    (fuel : Nat) : runAvailableTicks ticks (fuel + 1) 0 = 1 := by
+  have : schedulesNextTick (ticks 0) = false := by
+    simp only [schedulesNextTick, List.any_eq_false]
+    intro h hm
+    simp [hlazy 0 h hm]
+  simp [runAvailableTicks, this]
+
+/-- non-vacuity / contrast: the same pending data in a NON-lazy handoff (`defer_tick()`) starts a second tick -/
+example : runAvailableTicks (fun k => if k = 0 then [⟨false, 2⟩] else [⟨false, 0⟩]) 5 0 = 2 := by decide
+example : runAvailableTicks (fun _ => [⟨true, 2⟩]) 5 0 = 1 := by decide
+
 /-- at the level of whole runs: the observed per-tick outputs of a program whose output collection is
     stateless are a `map` over the ticks — nothing is carried from one tick to the next -/
 theorem tick_state_no_leak_run (p : TProg) (h : p.out.stateless = true) (ins : List TickIn) :
